@@ -436,7 +436,8 @@ class VersionFile:
         if trimDir:
             trimDir = os.path.realpath(trimDir)
 
-        fd = open(file, "w")
+        tmpfile = "%s.tmp%d" % (file, os.getpid())   # write a copy beside the record, then rename it into place
+        fd = open(tmpfile, "w")
 
         print("""FILE = version
 PRODUCT = %s
@@ -512,4 +513,9 @@ Group:
 
         print("End:", file=fd)
 
+        fd.flush()
+        os.fsync(fd.fileno())
         fd.close()
+        if os.path.exists(file):
+            os.chmod(tmpfile, os.stat(file).st_mode & 0o7777)   # keep the record's permissions
+        os.rename(tmpfile, file)
